@@ -563,7 +563,7 @@ pub fn emit(dir: &Path, thorough: bool, package: &str) -> Result<Emitted, String
     write(&dir.join("src/mac.rs"), &mac_rs);
     write(&dir.join("src/table.rs"), &table);
     write(&dir.join("src/driver.rs"), include_str!("../corpus_driver.rs"));
-    write(&dir.join("src/main.rs"), "mod driver;\nmod mac;\nmod table;\nmod text;\n\nfn main() {\n    driver::main();\n}\n");
+    write(&dir.join("src/main.rs"), "mod driver;\nmod mac;\nmod table;\nmod text;\n\nfn main() {\n    mcx::guard_main(driver::main);\n}\n");
     write(
         &dir.join("descriptors.json"),
         &serde_json::to_string_pretty(&serde_json::json!({"defs": wd::defs_to_json(&descs), "newer": serde_json::Value::Object(newer_json)})).unwrap(),
